@@ -34,10 +34,18 @@ class ChangedFile:
         # This is not necessary IMO, because Jedi does not really play with
         # newlines and the ending newline does not really matter in Python
         # files. ~dave
-        if old_lines[-1] != '':
+        old_ends_with_newline = old_lines[-1] == ''
+        new_ends_with_newline = new_lines[-1] == ''
+        if not old_ends_with_newline:
             old_lines[-1] += '\n'
-        if new_lines[-1] != '':
+        if not new_ends_with_newline:
             new_lines[-1] += '\n'
+        if old_ends_with_newline != new_ends_with_newline:
+            # The empty string behind the last newline is not a line. If only
+            # one side has it (e.g. the last line without a newline was
+            # removed), it would show up as an added/removed line without a
+            # newline, which is not a valid diff.
+            (old_lines if old_ends_with_newline else new_lines).pop()
 
         project_path = self._inference_state.project.path
         if self._from_path is None:
